@@ -395,3 +395,19 @@ Proof.
     subst v. destruct o; try discriminate; simpl; auto.
   - rewrite (Hnone eq_refl) in Hd. discriminate.
 Qed.
+
+(* the self-consistency errors of MafRecord.validate (RECORD_OUT_OF_SYNC,
+   RECORD_COLUMN_INDEX_OUT_OF_SYNC) carry the record's own line number, for
+   any record whatsoever *)
+Lemma sync_errs_at_line {C W} (r : rec (payload C W)) ln :
+  Forall (fun e => eline e = ln /\
+                   (etpe e = T_RECORD_OUT_OF_SYNC \/ etpe e = T_RECORD_COLUMN_INDEX_OUT_OF_SYNC))
+         (sync_errs r ln).
+Proof.
+  unfold sync_errs. apply Forall_app. split.
+  - destruct (_ || _); constructor; [split; [reflexivity|left; reflexivity]|constructor].
+  - generalize 0. induction (rlist r) as [|[c|] l IH]; intros i; simpl; [constructor| |apply IH].
+    apply Forall_app. split; [|apply IH].
+    destruct (match cidx c with Some ci => ci =? i | None => false end);
+      constructor; [split; [reflexivity|right; reflexivity]|constructor].
+Qed.
